@@ -1,7 +1,7 @@
 //! W-CHAN: operation-level simulator for the SPSC byte channel (property C12).
 //!
 //! The real `swimos_byte_channel` reader/writer pair is driven poll by poll (`AsyncRead::poll_read`,
-//! `AsyncWrite::poll_write|poll_flush|poll_shutdown`, drops) with two counting wakers, one per side.
+//! `AsyncWrite::poll_write|poll_flush|poll_shutdown`, drops) with counting wakers (three per side; the wake-up is owed to the waker of the side's latest poll).
 //! Every poll result is compared against a reference bounded FIFO and the wake-up obligations of the
 //! property are checked after every operation.
 //!
@@ -118,6 +118,7 @@ struct Ctr {
     budget_yields: u64,
     unexpected_yields: u64,
     wakeups_checked: u64,
+    polls_with_other_waker: u64,
     wakeups_reader: u64,
     wakeups_writer: u64,
     wakeups_on_close: u64,
@@ -252,10 +253,10 @@ struct SeqRun<'a> {
     m: Model,
     /// The reader's / writer's waker count recorded when its last poll returned a would-block
     /// Pending that has not been resolved yet.
-    reader_wait: Option<u64>,
-    writer_wait: Option<u64>,
-    rw: Arc<CountWaker>,
-    ww: Arc<CountWaker>,
+    reader_wait: Option<(usize, u64)>,
+    writer_wait: Option<(usize, u64)>,
+    rws: [Arc<CountWaker>; 3],
+    wws: [Arc<CountWaker>; 3],
     resolved: u64,
 }
 
@@ -274,8 +275,8 @@ impl<'a> SeqRun<'a> {
             self.m.shutdown,
             self.m.writer_dropped,
             self.m.reader_dropped,
-            self.rw.get(),
-            self.ww.get()
+            self.rws.iter().map(|w| w.get()).sum::<u64>(),
+            self.wws.iter().map(|w| w.get()).sum::<u64>()
         )
     }
 
@@ -283,13 +284,13 @@ impl<'a> SeqRun<'a> {
     /// reader is waiting and the model says a read could now complete, its waker must have fired
     /// since the Pending.
     fn check_reader_woken(&mut self, c: &mut Ctr, oi: usize, op: &Op) -> Option<Violation> {
-        let since = self.reader_wait?;
+        let (widx, since) = self.reader_wait?;
         if self.m.reader_dropped || !self.m.reader_can_progress() {
             return None;
         }
         c.wakeups_checked += 1;
         self.reader_wait = None;
-        if self.rw.get() > since {
+        if self.rws[widx].get() > since {
             c.wakeups_reader += 1;
             if self.m.buf.is_empty() {
                 c.wakeups_on_close += 1;
@@ -300,20 +301,20 @@ impl<'a> SeqRun<'a> {
             Some(viol(
                 "wakeup",
                 "reader",
-                format!("reader was waiting on an empty channel, the writer side made progress possible, reader's waker was not invoked: {}", self.ctx(oi, op, "done")),
+                format!("reader was waiting on an empty channel, the writer side made progress possible, the waker of the reader's latest poll was not invoked: {}", self.ctx(oi, op, "done")),
             ))
         }
     }
 
     /// Same for a waiting writer after an operation of the *reader* side (or its drop).
     fn check_writer_woken(&mut self, c: &mut Ctr, oi: usize, op: &Op) -> Option<Violation> {
-        let since = self.writer_wait?;
+        let (widx, since) = self.writer_wait?;
         if self.m.writer_dropped || !self.m.writer_can_progress() {
             return None;
         }
         c.wakeups_checked += 1;
         self.writer_wait = None;
-        if self.ww.get() > since {
+        if self.wws[widx].get() > since {
             c.wakeups_writer += 1;
             if self.m.reader_dropped {
                 c.wakeups_on_close += 1;
@@ -324,7 +325,7 @@ impl<'a> SeqRun<'a> {
             Some(viol(
                 "wakeup",
                 "writer",
-                format!("writer was waiting on a full channel, the reader side made progress possible, writer's waker was not invoked: {}", self.ctx(oi, op, "done")),
+                format!("writer was waiting on a full channel, the reader side made progress possible, the waker of the writer's latest poll was not invoked: {}", self.ctx(oi, op, "done")),
             ))
         }
     }
@@ -354,10 +355,10 @@ fn run_seq(
     let (w, r) = byte_channel(NonZeroUsize::new(seq.cap).unwrap());
     let mut writer = Some(w);
     let mut reader = Some(r);
-    let rw = Arc::new(CountWaker::default());
-    let ww = Arc::new(CountWaker::default());
-    let r_waker = Waker::from(rw.clone());
-    let w_waker = Waker::from(ww.clone());
+    let rws: [Arc<CountWaker>; 3] = [Arc::new(CountWaker::default()), Arc::new(CountWaker::default()), Arc::new(CountWaker::default())];
+    let wws: [Arc<CountWaker>; 3] = [Arc::new(CountWaker::default()), Arc::new(CountWaker::default()), Arc::new(CountWaker::default())];
+    let r_wakers: Vec<Waker> = rws.iter().map(|w| Waker::from(w.clone())).collect();
+    let w_wakers: Vec<Waker> = wws.iter().map(|w| Waker::from(w.clone())).collect();
 
     let mut run = SeqRun {
         si,
@@ -365,8 +366,8 @@ fn run_seq(
         m: Model::new(seq.cap),
         reader_wait: None,
         writer_wait: None,
-        rw: rw.clone(),
-        ww: ww.clone(),
+        rws: rws.clone(),
+        wws: wws.clone(),
         resolved: 0,
     };
     c.seqs += 1;
@@ -412,6 +413,13 @@ fn run_seq(
             h.commit(*step, "op", || format!("s{} {} -> skipped (side already dropped)", si, fmt_op(op)));
             continue;
         }
+        // The waker identity of this poll.
+        let widx = (seq.wakers.get(oi).copied().unwrap_or(0) % 3) as usize;
+        if widx != 0 {
+            c.polls_with_other_waker += 1;
+        }
+        let (rw, ww) = (&rws[widx], &wws[widx]);
+        let (r_waker, w_waker) = (&r_wakers[widx], &w_wakers[widx]);
         let r0 = rw.get();
         let w0 = ww.get();
 
@@ -491,7 +499,7 @@ fn run_seq(
                 scratch.resize(*n, 0);
                 let mut rb = ReadBuf::new(&mut scratch);
                 let rd = reader.as_mut().unwrap();
-                let mut cx = Context::from_waker(&r_waker);
+                let mut cx = Context::from_waker(r_waker);
                 match poll_once(reset, &mut cx, |cx| Pin::new(&mut *rd).poll_read(cx, &mut rb)) {
                     Poll::Pending => Raw::Pending,
                     Poll::Ready(Ok(())) => Raw::ReadOk(rb.filled().len()),
@@ -500,7 +508,7 @@ fn run_seq(
             }
             Op::Write { bytes } => {
                 let wr = writer.as_mut().unwrap();
-                let mut cx = Context::from_waker(&w_waker);
+                let mut cx = Context::from_waker(w_waker);
                 match poll_once(reset, &mut cx, |cx| Pin::new(&mut *wr).poll_write(cx, bytes)) {
                     Poll::Pending => Raw::Pending,
                     Poll::Ready(Ok(k)) => Raw::WriteOk(k),
@@ -509,7 +517,7 @@ fn run_seq(
             }
             Op::Flush => {
                 let wr = writer.as_mut().unwrap();
-                let mut cx = Context::from_waker(&w_waker);
+                let mut cx = Context::from_waker(w_waker);
                 match poll_once(reset, &mut cx, |cx| Pin::new(&mut *wr).poll_flush(cx)) {
                     Poll::Pending => Raw::Pending,
                     Poll::Ready(Ok(())) => Raw::UnitOk,
@@ -518,7 +526,7 @@ fn run_seq(
             }
             Op::Shutdown => {
                 let wr = writer.as_mut().unwrap();
-                let mut cx = Context::from_waker(&w_waker);
+                let mut cx = Context::from_waker(w_waker);
                 match poll_once(reset, &mut cx, |cx| Pin::new(&mut *wr).poll_shutdown(cx)) {
                     Poll::Pending => Raw::Pending,
                     Poll::Ready(Ok(())) => Raw::UnitOk,
@@ -579,7 +587,7 @@ fn run_seq(
                     run.reader_wait = None;
                 } else {
                     c.empty_hits += 1;
-                    run.reader_wait = Some(rw.get());
+                    run.reader_wait = Some((widx, rw.get()));
                 }
             }
             (Op::Read { n }, Raw::ReadOk(k)) => {
@@ -634,7 +642,7 @@ fn run_seq(
                     // Full and open (an empty write may legitimately wait as well; the real
                     // channel returns Ok(0) for it).
                     c.full_hits += 1;
-                    run.writer_wait = Some(ww.get());
+                    run.writer_wait = Some((widx, ww.get()));
                 }
             }
             (Op::Write { bytes }, Raw::WriteOk(k)) => {
@@ -869,6 +877,7 @@ impl World for ChanWorld {
         out.count("budget_yields", c.budget_yields);
         out.count("unexpected_yields", c.unexpected_yields);
         out.count("wakeups_checked", c.wakeups_checked);
+        out.count("polls_with_other_waker", c.polls_with_other_waker);
         out.count("wakeups_reader", c.wakeups_reader);
         out.count("wakeups_writer", c.wakeups_writer);
         out.count("wakeups_on_close", c.wakeups_on_close);
@@ -901,7 +910,7 @@ impl World for ChanWorld {
     }
 
     fn rule(&self) -> String {
-        "one run = a batch of 256 independent operation sequences derived from the run seed (sequence i of run seed s is gen_seq(s, i)); each sequence draws a capacity 1..=9, a coop mode (budget reset to 2^20 before every poll, or a small budget 2..=4 that persists across polls so forced yields occur) and up to 40 operations (poll_read n=0..12, poll_write of 0..12 attributable bytes, flush, shutdown, drop of either half) with side-bursts so the buffer is often full / empty, executed on the real channel with one counting waker per side and compared to a reference bounded FIFO after every operation. A run is non-trivial if at least one would-block Pending was later resolved by the other side and the wake-up obligation was checked; distinct = distinct hash of the full operation/result history of the batch".to_string()
+        "one run = a batch of 256 independent operation sequences derived from the run seed (sequence i of run seed s is gen_seq(s, i)); each sequence draws a capacity 1..=9, a coop mode (budget reset to 2^20 before every poll, or a small budget 2..=4 that persists across polls so forced yields occur) and up to 40 operations (poll_read n=0..12, poll_write of 0..12 attributable bytes, flush, shutdown, drop of either half) with side-bursts so the buffer is often full / empty, executed on the real channel with three counting wakers per side (half of the sequences switch the waker between polls; the wake-up is owed to the waker of the latest poll) and compared to a reference bounded FIFO after every operation. A run is non-trivial if at least one would-block Pending was later resolved by the other side and the wake-up obligation was checked; distinct = distinct hash of the full operation/result history of the batch".to_string()
     }
 
     fn components(&self) -> Json {
